@@ -502,4 +502,76 @@ Proof.
     apply creach_reach. eapply dfs_sound; eauto.
 Qed.
 
+(* ---------- the public calls ---------- *)
+Definition registered (w : world) (m : N) (rf : id) : Prop :=
+  exists xm p, model_at w m = Some xm /\ ref_text T w rf = Some p /\ In rf (origins_of xm p).
+
+Definition cross_clauses (w w' : world) (m_src m : N) (mv : id) : Prop :=
+  (forall rf x, below T w mv rf -> designates T w m_src rf x -> below T w mv x ->
+                designates T w' m rf x /\ registered w' m rf) /\
+  (forall rf p, below T w mv rf -> ref_text T w rf = Some p ->
+                ~ (exists x, designates T w m_src rf x /\ below T w mv x) ->
+                ref_text T w' rf = Some p /\ registered w' m rf) /\
+  (forall rf p, ref_text T w rf = Some p -> ~ below T w mv rf -> ref_text T w' rf = Some p).
+
+Lemma cross_of_full h mv pos m m_src version w w' r :
+  Inv06 T check_fn w ->
+  move_element_full T tab_en check_fn h mv pos m m_src version w = Val (OK r, w') ->
+  model_of h w = Val (OK m, w) -> model_of mv w = Val (OK m_src, w) -> m <> m_src ->
+  (forall n, w_nodes w h = Some n -> isref T (n_type n) = false) ->
+  cross_clauses w w' m_src m mv.
+Proof.
+  intros HI Hmf Hmh Hmm Hne Hnr. pose proof HI as (HT & _).
+  assert (HRmv : MReach T w m_src mv) by (apply (model_of_mreach T); assumption).
+  assert (HRh : MReach T w m h) by (apply (model_of_mreach T); assumption).
+  assert (Hxd : exists xd, model_at w m = Some xd) by (destruct HRh as (xd & H1 & _); eauto).
+  destruct (move_full_follow h mv pos m m_src version w w' r HI Hmf HRmv Hne Hxd Hnr) as (xs & x' & Hxs & Hx' & Ha & Hb & Hc).
+  split; [|split].
+  - intros rf x Hrf (xs0 & p & Hxs0 & Hr & Hp) Hx. assert (xs0 = xs) by congruence. subst xs0.
+    destruct (Ha rf p x Hrf Hr Hp Hx) as (p' & H1 & H2 & H3). split; [exists x', p'; auto|exists x', p'; auto].
+  - intros rf p Hrf Hr Hnot. destruct (Hb rf p Hrf Hr) as (H1 & H2).
+    + intros (x & Hgx & Hrx). apply Hnot. exists x. split; [exists xs, p; auto|exact Hrx].
+    + split; [exact H1|exists x', p; auto].
+  - exact Hc.
+Qed.
+
+Theorem C06_move_cross h mv w w' r m m_src :
+  TablesOK T check_fn -> Inv06 T check_fn w ->
+  e_move_element_here T tab_en check_fn LATEST h mv w = Val (OK r, w') ->
+  model_of h w = Val (OK m, w) -> model_of mv w = Val (OK m_src, w) -> m <> m_src ->
+  cross_clauses w w' m_src m mv.
+Proof.
+  intros TK HI H Hmh Hmm Hne. unfold e_move_element_here in H.
+  destruct (h =? mv); [discriminate H|].
+  wk H. wk H. assert (a = m_src) by congruence. assert (a0 = m) by congruence. subst a a0.
+  wk H. wk H. destruct (negb (a0 =? a)); [discriminate H|].
+  wk H. apply get_node_inv in E3 as (n & Hn & Q & _). injection Q as ->.
+  wk H. apply get_node_inv in E3 as (mn & Hmn & Q & _). injection Q as ->.
+  wk H. destruct a1 as (rs, re).
+  assert (Hnr : forall n0, w_nodes w h = Some n0 -> isref T (n_type n0) = false).
+  { intros n0 Hn0. assert (n0 = n) by congruence. subst n0. eapply (calc_range_not_ref T); eauto. }
+  destruct (m =? m_src) eqn:Em; [apply N.eqb_eq in Em; contradiction|].
+  eapply cross_of_full; eauto.
+Qed.
+
+Theorem C06_move_at_cross h mv pos w w' r m m_src :
+  TablesOK T check_fn -> Inv06 T check_fn w ->
+  e_move_element_here_at T tab_en check_fn LATEST h mv pos w = Val (OK r, w') ->
+  model_of h w = Val (OK m, w) -> model_of mv w = Val (OK m_src, w) -> m <> m_src ->
+  cross_clauses w w' m_src m mv.
+Proof.
+  intros TK HI H Hmh Hmm Hne. unfold e_move_element_here_at in H.
+  destruct (h =? mv); [discriminate H|].
+  wk H. wk H. assert (a = m_src) by congruence. assert (a0 = m) by congruence. subst a a0.
+  wk H. wk H. destruct (negb (a0 =? a)); [discriminate H|].
+  wk H. apply get_node_inv in E3 as (n & Hn & Q & _). injection Q as ->.
+  wk H. apply get_node_inv in E3 as (mn & Hmn & Q & _). injection Q as ->.
+  wk H. destruct a1 as (rs, re).
+  assert (Hnr : forall n0, w_nodes w h = Some n0 -> isref T (n_type n0) = false).
+  { intros n0 Hn0. assert (n0 = n) by congruence. subst n0. eapply (calc_range_not_ref T); eauto. }
+  destruct ((rs <=? pos) && (pos <=? re)); [|discriminate H].
+  destruct (m =? m_src) eqn:Em; [apply N.eqb_eq in Em; contradiction|].
+  eapply cross_of_full; eauto.
+Qed.
+
 End Cross.
